@@ -13,7 +13,7 @@ import Inkayaku.Proofs.SearchTrace
 namespace Inkayaku.Search
 open Inkayaku.Board Inkayaku.Eval Inkayaku.WF Inkayaku.BoardCongr
 
-/-- `m` is a legal move of `b` admitted by the `searchmoves` list `sm` (empty list = no restriction) -/
+/-- `m` is a legal move of `b` allowed by the `searchmoves` list `sm` (empty list = no restriction) -/
 def LegalRoot (b : Board) (sm : List String) (m : Move) : Prop :=
   m ∈ genPseudo b ∧ isValid (make b m) = true ∧ (sm ≠ [] → m.uci ∈ sm)
 
@@ -178,7 +178,7 @@ section
 variable (L : BoardLaws)
 include L
 
-/-- in every iteration the root result is `none` or a legal move of the position (admitted by `searchmoves`);
+/-- in every iteration the root result is `none` or a legal move of the position (allowed by `searchmoves`);
 the transposition table cannot answer at the root because all its entries are shallower than the iteration depth -/
 theorem iters_legal (b0 : Board) (hwf0 : wf b0 = true) (sm : List String) :
     ∀ (n : Nat) (s : St) (d mt : Nat) (u : Option (List Move)) (sc : Option Score),
